@@ -11,6 +11,16 @@ CUTS = [r'^_ZNSt7__cxx119to_stringEm$', r'^_ZStplIcSt11char_traitsIcESaIcEENSt7_
         r'^_ZNSt7__cxx1112basic_stringIcSt11char_traitsIcESaIcEEC2IS3_EEPKcRKS3_$', r'^_ZN5phosg13string_printfB5cxx11EPKcz$']
 UNITS = {'json': dict(wrap='wrap.cc', shim=True, new_block=96, cxxflags=['-DVERIF_UMAP_CAP=2'], cuts=CUTS, ir2c_flags=['--union-fp-bytes'])}
 
+
+
+# unit for documents with containers (h_cont.c), run path-wise: every branch on concrete data has to constant-fold, otherwise each one
+# doubles the number of paths. Needed for that (measured, NOTES.md): the pool allocator (no malloc/free: CBMC's models of both contain
+# nondeterministic bookkeeping branches), --flat-unions/--ptrdiff (std::string SSO), and VERIF_MEM_WORDS (the 24/32-byte struct
+# copies and the {0,0,0} initialisation of a std::vector inside the std::variant are word stores, not a byte_update over an
+# uninitialised object that symex cannot fold).
+UNITS['jc'] = dict(wrap='wrap.cc', shim=True, new_block=96, cxxflags=['-DVERIF_UMAP_CAP=2'], cuts=CUTS, ir2c_flags=['--union-fp-bytes', '--ptrdiff', '--flat-unions'],
+                   gen_defs=['VERIF_NEW_POOL=16', 'VERIF_MEM_WORDS'])
+
 BOUNDS = ('JSON::parse on templated documents (h_tmpl.c): concrete skeleton + trailing symbolic holes of one lexical class each (WS, digit, letter), parser mode a concrete cell: '
           '19 templates x 2 modes (7 x 2 in the quick tier), every value of the holes; plus exponent-plus-sign templates 1e+D, -2.5E+D, 7e+2 WS and fully concrete '
           'one-member dictionaries {"a":7} {"a":t} {"a":0x1C} {"a":7,} (mode a cell); '
@@ -34,17 +44,165 @@ OUTSIDE = ['JSON::parse on inputs that are not one of the templates: totality / 
 ASSUMPTIONS = ['the kernels are the only routes by which JSON::parse touches its input: StringReader::get_s8/pget_s8/eof/skip_if/go/where (by reading JSON.cc:19-258)']
 
 
-def parse_unwindset(L, NB, elems=None):
+def parse_unwindset(L, NB, elems=None, exp=11):
     """whole-parse probes: global --unwind 8 covers the constant 7-way std::variant index loops; data-dependent loops get exact bounds"""
     if elems is None:
         elems = max(1, (L - 1) // 2) if NB else 0
     u = ['%s:%d' % (PARSE, NB + 1), '%s:%d' % (RESET, NB + 1)]
     for k in range(0, 9):
         u.append('%s.%d:%d' % (PARSE, k, L + 2))
-    u += ['%s.9:11' % PARSE, '%s.10:11' % PARSE]
+    u += ['%s.9:%d' % (PARSE, exp), '%s.10:%d' % (PARSE, exp)]
     u += ['%s.0:%d' % (SKIPWS, L + 2), 'verif_memcpy_loop.0:%d' % (L + 2), 'verif_memset_loop.0:%d' % (L + 2), 'memcmp.0:7']
     u += ['%s.0:%d' % (RESET, elems + 2), '%s.1:%d' % (RESET, elems + 2), '%s.0:%d' % (REALLOC, elems + 2), '%s.1:%d' % (REALLOC, elems + 2)]
     return ','.join(u)
+
+
+# ---- second template set (h_doc.c) ----
+# scalar documents: cbmc --paths lifo (path-wise symbolic execution: one solver query per path, no state merging). Measured: a hole
+# in front of concrete bytes costs 130-180 s / 4.4 GB with merging (the reader offset becomes symbolic at the first join) and
+# 9-20 s / 1 GB path-wise. Containers do not work path-wise (see NOTES.md), they stay in the merging mode.
+PATHS = ['--paths', 'lifo']
+# tpl: (skeleton as shown in reports, document length, modes, quick-tier modes)
+DOCS = {
+    100: ('-922337203685477580 D', 20, (0, 1), (0, 1)),
+    101: ('922337203685477580 D', 19, (0, 1), (0,)),
+    102: ('-92233720368547758 D D', 20, (0, 1), ()),
+    103: ('92233720368547758 D D', 19, (0, 1), ()),
+    104: ('4 D D', 3, (0, 1), ()),
+    105: ('-1 D D', 4, (0, 1), ()),
+    106: ('1844674407370955161 D (beyond int64)', 20, (0, 1), ()),
+    107: ('-922337203685477581 D (beyond int64)', 20, (0, 1), ()),
+    108: ('1 D SP x (both entry points)', 4, (0, 1), (1,)),
+    109: ('7 SP X (X any byte)', 3, (0, 1), (0,)),
+    110: ('0x H', 3, (0, 1), (0, 1)),
+    111: ('0x H H', 4, (0, 1), ()),
+    112: ('-0x H', 4, (0, 1), (1,)),
+    113: ('0x7FFFFFFFFFFFFFF H', 18, (0, 1), ()),
+    114: ('-0x800000000000000 H', 19, (0, 1), (0,)),
+    115: ('0x H SP ] (reader entry point)', 5, (0,), ()),
+    120: ('5e+ D', 4, (0, 1), ()),
+    121: ('5e D', 3, (0, 1), (0,)),
+    122: ('3 D e D', 4, (0, 1), ()),
+    123: ('1 D . D e D', 6, (0, 1), (1,)),
+    124: ('- D . D E- D', 7, (0, 1), ()),
+    125: ('7 D . D D', 5, (0, 1), ()),
+    126: ('2.5e D ,] (reader entry point)', 7, (0, 1), ()),
+    127: ('1.5e+300 (no hole)', 8, (0, 1), (0,)),
+    128: ('1.5e+30 D', 8, (0, 1), ()),
+    130: ('- (lone minus)', 1, (0, 1), ()),
+    131: ('0 D (leading zero)', 2, (0, 1), ()),
+    132: ('- WS', 2, (0, 1), ()),
+    133: ('1 D .', 3, (0, 1), ()),
+    134: ('1 D e', 3, (0, 1), ()),
+    135: ('1 D e+', 4, (0, 1), ()),
+    136: ('. D', 2, (0, 1), ()),
+    137: ('+ D', 2, (0, 1), ()),
+    139: ('7 X (X any byte but digit . e E)', 2, (0, 1), ()),
+    200: ('" X " (X printable or >= 0x80)', 3, (0, 1), (0,)),
+    201: ('" X " (X control character)', 3, (0, 1), ()),
+    202: ('" X X " (two-byte UTF-8 sequence)', 4, (0, 1), ()),
+    203: ('" L L L "', 5, (0, 1), ()),
+    204: ('" L " SP x (both entry points)', 5, (0, 1), (0,)),
+    205: ('"" WS', 3, (0, 1), ()),
+    210: ('"\\ E " (E one of the eight escape letters)', 4, (0, 1), (0, 1)),
+    211: ('"\\ X " (X no escape letter)', 4, (0, 1), ()),
+    212: ('"a\\ E L "', 6, (0, 1), ()),
+    220: ('"\\u00 H H "', 8, (0, 1), (0,)),
+    221: ('"\\u H H H H " (above U+00FF)', 8, (0, 1), ()),
+    222: ('"\\u00 H X " (X no hex digit)', 8, (0, 1), ()),
+    223: ('"\\u00 H H L "', 9, (0, 1), (1,)),
+    225: ('"\\x H H "', 6, (0, 1), (0,)),
+    226: ('"\\x H X " (X no hex digit)', 6, (0, 1), ()),
+}
+# documents whose every prefix is a cell; the last kept byte is replaced by a symbolic byte (all 256 values)
+PREFIX_DOCS = {500: ('"a\\u0041\\n"', 11), 501: ('-12.5e+2', 8), 502: ('false', 5), 503: ('null SP', 5), 504: ('-0x1F', 5), 505: ('//c LF 7', 5)}
+
+
+def doc_queries(tier):
+    qs = []
+    for t in sorted(DOCS):
+        nm, L, modes, qmodes = DOCS[t]
+        for st in (qmodes if tier == 'quick' else modes):
+            qs.append(dict(name='doc%03d_strict%d' % (t, st), unit='json', harness='h_doc.c', defs={'TPL': t, 'STRICT': st}, unwind=12,
+                           unwindset=parse_unwindset(L, 0, exp=(312 if t in (127, 128) else 11)) + ',fill.0:%d,harness.0:302,harness.1:302' % (L + 2), object_bits=12, timeout=(900 if t == 128 else 300), mem_gb=6, flags=PATHS,
+                           desc='JSON::parse(%s) on the templated document %s: exact kind / value / where() or the documented exception' % ('strict' if st else 'default', nm),
+                           bounds='template %s, mode %s, every value of the holes; exact-size input buffer' % (nm, 'strict' if st else 'default')))
+    for t in sorted(PREFIX_DOCS):
+        nm, L = PREFIX_DOCS[t]
+        for P in range(2, L + (0 if t == 505 else 1)):  # a symbolic byte at the START of a value (P == 1, or after the comment of 505) is not feasible path-wise
+            for st in (0, 1):
+                if tier == 'quick' and not (t == 500 and P in (5, 11) and st == 0):
+                    continue
+                qs.append(dict(name='pre%03d_len%02d_strict%d' % (t, P, st), unit='json', harness='h_doc.c', defs={'TPL': t, 'STRICT': st, 'PREFIX': P}, unwind=12,
+                               unwindset=parse_unwindset(L, 0) + ',fill.0:%d' % (L + 2), object_bits=12, timeout=300, mem_gb=6, flags=PATHS,
+                               desc='JSON::parse(%s), both entry points, on the first %d bytes of %s with the last of them replaced by a symbolic byte: only parse_error / out_of_range escape, no read outside the %d-byte buffer' % ('strict' if st else 'default', P, nm, P),
+                               bounds='prefix length %d of %s, last byte all 256 values, mode %s' % (P, nm, 'strict' if st else 'default')))
+    return qs
+
+
+WALK = '_ZL4walkRKN5phosg4JSONEPKhm'
+# tpl: (skeleton, document length, nesting, modes, quick-tier modes, timeout)
+CONTS = {
+    300: ('[1 D ,2 D ]', 7, 1, (0, 1), (), 600),
+    301: ('[ D ] (hole = first byte of the member)', 3, 1, (0,), (), 900),
+    302: ('[[1 D ]]', 6, 2, (0, 1), (), 600),
+    303: ('[[],[1 D ]]', 9, 2, (0, 1), (), 600),
+    304: ('[1 D ] x (both entry points)', 6, 1, (0, 1), (), 600),
+    305: ('[" L ",1 D ]', 8, 1, (0, 1), (), 600),
+    310: ('{"a":1 D }', 8, 1, (0, 1), (), 600),
+    311: ('{"a":1 D ,"b":2 D }', 15, 1, (0, 1), (), 900),
+    312: ('{"a":1,"a":2} (duplicate key)', 13, 1, (0, 1), (), 300),
+    313: ('{" L ":1 D }', 8, 1, (0, 1), (), 600),
+    314: ('{"a":1 D } x (both entry points)', 10, 1, (0, 1), (), 600),
+    315: ('{"a":" L "}', 9, 1, (0, 1), (), 600),
+    320: ('{"a" 1 D } (missing colon)', 8, 1, (0, 1), (), 300),
+    321: ('[1 D SP 2 D ] (missing comma)', 7, 1, (0, 1), (), 300),
+    322: ('{"a":1 D SP "b":2} (missing comma)', 14, 1, (0, 1), (), 300),
+    323: ('[1 D ,,2] (doubled comma)', 7, 1, (0, 1), (), 300),
+    324: ('{"a",1 D } (comma for colon)', 8, 1, (0, 1), (), 300),
+    325: ('[,1 D ] (leading comma)', 5, 1, (0, 1), (), 300),
+    330: ('[1 D ,]', 5, 1, (0, 1), (), 300),
+    331: ('{"a":1 D ,}', 9, 1, (0, 1), (), 600),
+    332: ('[1 D , WS ]', 6, 1, (0, 1), (), 600),
+    340: ('[[[1 D ]]]', 8, 3, (0, 1), (), 600),
+    341: ('{"a":{"b":{"c":1 D }}}', 20, 3, (0, 1), (), 900),
+    342: ('[{"a":[1 D ]}]', 12, 3, (0, 1), (), 900),
+    343: ('{"a":[1 D ,2 D ]}', 13, 2, (0, 1), (), 900),
+    350: ('[1 D WS ,2 D WS ] WS', 10, 1, (0, 1), (), 900),
+    351: ('{"a" WS :1 D WS } WS', 11, 1, (0, 1), (), 900),
+    352: ('[ WS 7] (whitespace in front of a member)', 4, 1, (0,), (), 900),
+    360: ('[t,f,n,null,true,false]', 23, 1, (0, 1), (), 300),
+    361: ('[ L ] (hole = the member)', 3, 1, (0, 1), (), 900),
+    362: ('[0x H ]', 5, 1, (0, 1), (), 300),
+    363: ('{"a":0x H }', 9, 1, (0, 1), (), 600),
+    364: ('[1 D // L LF ]', 8, 1, (0, 1), (), 600),
+}
+PREFIX_CONTS = {600: ('[1,2]', 5, 1), 601: ('{"a":1}', 7, 1), 602: ('[true,null]', 11, 1), 603: ('[[1],{}]', 8, 2)}
+
+
+def cont_q(name, defs, L, nb, to, desc, bounds):
+    return dict(name=name, unit='jc', harness='h_cont.c', defs=defs, unwind=12,
+                unwindset=parse_unwindset(L, nb, elems=2) + ',fill.0:%d,%s.0:60' % (L + 2, WALK), object_bits=12, timeout=to, mem_gb=6,
+                flags=PATHS + ['--max-field-sensitivity-array-size', '128'], desc=desc, bounds=bounds)
+
+
+def cont_queries(tier):
+    qs = []
+    for t in sorted(CONTS):
+        nm, L, nb, modes, qmodes, to = CONTS[t]
+        for st in (qmodes if tier == 'quick' else modes):
+            qs.append(cont_q('cont%03d_strict%d' % (t, st), {'TPL': t, 'STRICT': st}, L, nb, to,
+                             'JSON::parse(%s) on the templated container document %s: exact kind / size / members / where(), or rejection with the documented exceptions' % ('strict' if st else 'default', nm),
+                             'template %s, mode %s, every value of the holes; nesting %d; exact-size input buffer' % (nm, 'strict' if st else 'default', nb)))
+    if tier != 'quick':
+        for t in sorted(PREFIX_CONTS):
+            nm, L, nb = PREFIX_CONTS[t]
+            for P in range(2, L + 1):
+                for st in (0, 1):
+                    qs.append(cont_q('cpre%03d_len%02d_strict%d' % (t, P, st), {'TPL': t, 'STRICT': st, 'PREFIX': P}, L, nb, 900,
+                                     'JSON::parse(%s), both entry points, on the first %d bytes of %s with the last of them replaced by a symbolic byte: only parse_error / out_of_range escape, no read outside the %d-byte buffer' % ('strict' if st else 'default', P, nm, P),
+                                     'prefix length %d of %s, last byte all 256 values, mode %s' % (P, nm, 'strict' if st else 'default')))
+    return qs
 
 
 def queries(tier):
@@ -88,6 +246,8 @@ def queries(tier):
                        unwindset=parse_unwindset(12, nb, elems=2), object_bits=12, timeout=900, mem_gb=(12 if t >= 33 else 6),
                        desc='JSON::parse(%s) on the templated document %s%s: expected acceptance / kind / value%s' % ('strict' if st else 'default', XN[t], ' + trailing WS hole' if hole else '', ' of member a' if elem else ''),
                        bounds='template %s%s, mode %s' % (XN[t], '+WS' if hole else '', 'strict' if st else 'default')))
+    qs += doc_queries(tier)
+    qs += cont_queries(tier)
     if os.environ.get('C05_PROBES'):
         # measurement only (see OUTSIDE): whole JSON::parse on fully symbolic bytes. None of these returned a verdict.
         for L, NB in ((1, 0), (2, 0), (2, 1)):
